@@ -62,7 +62,9 @@ GEN = {
                           ("chord", ["P:LEFTCTRL", "P:K", "P:A"], 3, 1, 1, 0), ("basic", ["P:A", "P:S"], 2, 1, 0, 0, 20), ("basic", ["P:A", "R:A"], 1, 0, 1, 1, 70),
                           ("norep", ["P:LEFTSHIFT", "P:A"], 2, 0, 0, 0, 33)],
     ("C11", "quick"): [("tapchord", ["P:A", "R:A", "P:B"], 3, 0, 2, 0), ("rollover", ["P:A", "P:S", "R:A"], 3, 0, 2, 0), ("basic", ["P:S", "R:S"], 3, 1, 2, 0), ("chord", ["P:LEFTCTRL", "P:K", "R:K"], 3, 0, 2, 0), ("empty-chord", ["P:S", "P:A", "P:B"], 3, 0, 2, 0),
-                       ("norep", ["P:LEFTSHIFT", "P:S", "P:D"], 3, 0, 2, 0), ("twodelay", ["P:B", "P:D", "P:A"], 2, 0, 3, 0)],
+                       ("norep", ["P:LEFTSHIFT", "P:S", "P:D"], 3, 0, 2, 0), ("twodelay", ["P:B", "P:D", "P:A"], 2, 0, 3, 0),
+                       # a signal in the middle of a timed wait
+                       ("basic", ["P:S", "R:S"], 2, 0, 2, 1)],
     ("C11", "thorough"): [("rollover", ["P:A", "P:S", "R:A", "R:S"], 4, 0, 3, 0), ("basic", ["P:S", "R:S", "P:A"], 3, 1, 3, 0), ("chord", ["P:LEFTCTRL", "P:K", "R:K", "R:LEFTCTRL"], 4, 0, 2, 0), ("chord", ["P:LEFTCTRL", "P:K"], 2, 2, 2, 0),
                           ("empty-chord", ["P:S", "P:A", "P:B", "R:B"], 4, 0, 2, 0), ("norep", ["P:LEFTSHIFT", "P:S", "P:D", "R:LEFTSHIFT"], 4, 0, 2, 0),
                           ("basic", ["P:S", "P:S", "R:S"], 3, 0, 4, 1), ("twodelay", ["P:B", "P:D", "P:A", "R:B"], 3, 0, 3, 0)],
@@ -509,6 +511,11 @@ def variants(prop, tier, cases):
         for c in timed[::step]:
             for mode in ("yes", "over"):
                 out.append(dict(c, id=c["id"] + "-" + mode, sleep=mode))
+        # a wait that is cut short by a signal after half of its time-out (the runs that really sleep): what is asked for next must be what is left
+        intr = [c for c in timed if any(l["a"] == "poll" and l["t"] == "intr" for l in c["sched"])]
+        step = max(1, len(intr) // (100 if tier == "quick" else 1000))
+        for c in intr[::step]:
+            out.append(dict(c, id=c["id"] + "-iyes", sleep="yes"))
         # one time-out served several intervals late, the others on time or at once: the schedule must not shift ("without drift")
         multi = [c for c in cases if sum(1 for l in c["sched"] if l["a"] == "poll" and l["t"] == "timeout" and l["x"] == "timed") >= 2]
         step = max(1, len(multi) // (120 if tier == "quick" else 1200))
